@@ -568,7 +568,36 @@ pub fn c04(cfg: &Config, tr: &Trace, an: &Analysis, out: &mut Vec<Violation>) {
 
 // ------------------------------------------------------------------------ C05
 
+/// "... while other scenarios keep running meanwhile": user code whose gate the harness
+/// released must be resumed before virtual time moves on (under L0 the clock only
+/// moves at quiescence, i.e. after the runner had every chance to poll it).
+fn c05_starvation(cfg: &Config, tr: &Trace, out: &mut Vec<Violation>) {
+    if cfg.gran != crate::spec::Gran::L0 {
+        return;
+    }
+    for (i, l) in tr.log.iter().enumerate() {
+        let LogKind::Released(label) = &l.kind else { continue };
+        let resumed = tr.log[i..].iter().find(|x| {
+            matches!(&x.kind, LogKind::Exit { key, inv, .. } if format!("{key}#{inv}") == *label)
+        });
+        if let Some(x) = resumed {
+            if x.vtime > l.vtime {
+                out.push(v(
+                    "C05",
+                    "starved-during-delay",
+                    format!(
+                        "user code {label} could continue at {:?} but was only polled again at {:?}: running scenarios made no progress while the runner waited",
+                        l.vtime, x.vtime
+                    ),
+                ));
+                return;
+            }
+        }
+    }
+}
+
 pub fn c05(cfg: &Config, tr: &Trace, an: &Analysis, out: &mut Vec<Violation>) {
+    c05_starvation(cfg, tr, out);
     let cut = cfg.fail_fast()
         && (an.first_final_failure.is_some()
             || an.delivered.iter().any(|i| matches!(cfg.items[*i], Item::Err(_))));
@@ -696,7 +725,10 @@ fn scen_log_indices(tr: &Trace, sc: &ScenObs) -> Vec<usize> {
             }
             LogKind::Exit { key, inv, .. } => cur_keys.contains_key(&(key.clone(), *inv)),
             LogKind::AfterReason { key, .. } => own.contains(key.as_str()),
-            LogKind::Emit { .. } | LogKind::ParserDeliver(_) | LogKind::ParserPolledAfterEnd => false,
+            LogKind::Emit { .. }
+            | LogKind::ParserDeliver(_)
+            | LogKind::ParserPolledAfterEnd
+            | LogKind::Released(_) => false,
         };
         if mine {
             out.push(i);
